@@ -23,12 +23,12 @@
 //   - a line that is not valid UTF-8: the excerpt may stop up to 3 bytes short and the caret is only
 //     bounded (the width of invalid bytes is unspecified).
 //
-// Stable keys of the defect classes found on the tree as delivered (each is reported once, with
-// its smallest replay first): lone-cr-window-linecount, lineinfo:ufffd-before-fault,
-// stream-token-offset, lexer-stale-token-stringstart, lexer-invalid-utf8-token,
-// yaml-index-counts-characters, yaml-error-without-index; window-readahead-reset is the key of D8
-// (fixed in cli/inputs.go; reported again if the fix is reverted). Any other wrong position gets
-// a key `lineinfo:<kind>:<details>` / `lexer-offset:<details>`.
+// Stable keys of the defect classes this check found (each is reported once, with its smallest
+// replay first). Still open (known-findings.txt): lone-cr-window-linecount, stream-token-offset.
+// Fixed in /repo and reported again on regression: window-readahead-reset (D8, 9fbc1d6),
+// lineinfo:ufffd-before-fault (0d1dca4), lexer-stale-token-stringstart (d264e09),
+// lexer-invalid-utf8-token (bfcffb3), yaml-index-counts-characters and yaml-error-without-index
+// (faf5fb2). Any other wrong position gets a key `lineinfo:<kind>:<details>` / `lexer-offset:<details>`.
 package main
 
 import (
